@@ -21,6 +21,7 @@ import AmrK.Names
 import AmrK.MaxMins
 import AmrK.TasteData
 import AmrK.BoxSel
+import AmrK.MenuClass
 import AmrK.TasteCoords
 import AmrK.CellHRewrite
 import AmrK.HeaderRewrite
@@ -456,6 +457,24 @@ def opMaxMins (j : Json) : Except String Json := do
     let enc := fun (t : List (Bytes × List Bytes)) => toJson (t.map fun p => (str p.1, p.2.map str))
     return Json.mkObj [("status", "ok"), ("mins", enc (MaxMins.byField names mins)), ("maxs", enc (MaxMins.byField names maxs))]
 
+/-- menu's classification of the header's fields against the database sent along -/
+def opMenuVars (j : Json) : Except String Json := do
+  let tb ← (← j.getObjVal? "table").getArr?
+  let table : List MenuClass.Entry ← tb.toList.mapM fun e => do
+    let a ← e.getArr?
+    return (← a[0]!.getStr?, ← a[1]!.getStr?, ← a[2]!.getStr?)
+  let fields ← (← (← j.getObjVal? "fields").getArr?).toList.mapM (·.getStr?)
+  let spat ← (← j.getObjVal? "species_pattern").getStr?
+  match MenuClass.variables table fields with
+  | none => return Json.mkObj [("status", "unsupported")]
+  | some (vars, t') =>
+    let units := fields.map fun f =>
+      match MenuClass.classify t' f with
+      | some (some e) => e.2.2
+      | _ => "[...]"
+    return Json.mkObj [("status", "ok"), ("vars", toJson vars), ("units", toJson units),
+      ("species", optJ (MenuClass.species spat fields))]
+
 /-- box and level selection of the indexing interface -/
 def opBoxSel (j : Json) : Except String Json := do
   let size ← (← j.getObjVal? "size").getNat?
@@ -696,6 +715,7 @@ partial def loop (h : IO.FS.Stream) (out : IO.FS.Stream) (files : Std.HashMap St
         | "maxmins" => opMaxMins j
         | "taste_data" => opTasteData files j
         | "boxsel" => opBoxSel j
+        | "menu_vars" => opMenuVars j
         | "fab_rows" => opFabRows files j
         | "combine_cellh" => opCombineCellH j
         | "rewrite_header" => opRewriteHeader j
